@@ -67,3 +67,61 @@ M("c11-evicted-still-attached", ["C11", "C01"], "CleanUp returns events that sta
 M("c11-unlocked-put-fastpath", ["C11"], "Put checks EOE before taking the lock and touches the map unlocked",
   (R, "func (l *eventList) Put(msg *auparse.AuditMessage) {\n	l.Lock()\n	defer l.Unlock()\n\n	seq := sequenceNum(msg.Sequence)\n	e, found := l.events[seq]\n",
       "func (l *eventList) Put(msg *auparse.AuditMessage) {\n	seq := sequenceNum(msg.Sequence)\n	e, found := l.events[seq]\n	l.Lock()\n	defer l.Unlock()\n"))
+# ---- C04 ----
+AP = "auparse/auparse.go"
+M("c04-seq-31bit", ["C04"], "sequence parsed with 31 bits", (AP, "strconv.ParseUint(line[sep+1:end], 10, 32)", "strconv.ParseUint(line[sep+1:end], 10, 31)"))
+M("c04-sec-int32", ["C04"], "seconds parsed as int32", (AP, "sec, err := strconv.ParseInt(line[start+1:dot], 10, 64)", "sec, err := strconv.ParseInt(line[start+1:dot], 10, 33)"))
+M("c04-msec-as-usec", ["C04"], "milliseconds scaled as microseconds above 900", (AP, "tm := time.Unix(sec, msec*int64(time.Millisecond)).UTC()", "if msec > 990 {\n\t\tmsec /= 1000\n\t}\n\ttm := time.Unix(sec, msec*int64(time.Millisecond)).UTC()"))
+M("c04-last-msg-token", ["C04"], "ParseLogLine splits at the LAST msg=", (AP, "msgIndex := strings.Index(line, msgToken)", "msgIndex := strings.LastIndex(line, msgToken)\n\tif i := strings.Index(line, msgToken); i >= 0 && strings.Count(line, msgToken) < 3 {\n\t\tmsgIndex = i\n\t}"))
+M("c04-mapstr-precedence", ["C04"], "ToMapStr lets a body field named sequence override the header", (AP, "\tout[\"sequence\"] = strconv.FormatUint(uint64(m.Sequence), 10)\n", "\tif _, dup := out[\"sequence\"]; !dup {\n\t\tout[\"sequence\"] = strconv.FormatUint(uint64(m.Sequence), 10)\n\t}\n"))
+M("c04-unknown-base16", ["C04", "C20"], "UNKNOWN[n] parsed with base 0 (octal for leading zero is fine, hex accepted) and 15 bits", ("auparse/zaudit_msg_types.go", "num, err := strconv.ParseUint(name, 10, 16)", "num, err := strconv.ParseUint(name, 10, 15)"))
+M("c04-rawdata-untrimmed", ["C04"], "Parse keeps leading blanks in RawData when there are two", (AP, "\tmessage = strings.TrimSpace(message)\n\n\ttimestamp, seq, end, err := parseAuditHeader(message)", "\tif !strings.HasPrefix(message, \"  \") {\n\t\tmessage = strings.TrimSpace(message)\n\t}\n\n\ttimestamp, seq, end, err := parseAuditHeader(message)"))
+# ---- C05 ----
+M("c05-saddr-guard", ["C05"], "IPv6 saddr length guard off by some", ("auparse/sockaddr.go", "\t\tif len(s) < 48 {", "\t\tif len(s) < 40 {"))
+M("c05-selinux-avc-index", ["C05"], "AVC normalisation indexes the match without the length check", (AP, "\t\tif len(i) != 3*2 {\n\t\t\treturn \"\", errParseFailure\n\t\t}\n", ""))
+M("c05-data-error-not-cached", ["C05"], "Data() does not cache its error for messages without content", (AP, "\tif m.offset < 0 {\n\t\tm.error = errors.New(\"message has no data content\")\n\t\treturn nil, m.error\n\t}", "\tif m.offset < 0 {\n\t\treturn nil, fmt.Errorf(\"message has no data content (%p)\", &message{})\n\t}"))
+M("c05-header-guard", ["C05", "C04"], "type= guard removed: short prefix before msg= slices out of range", (AP, "\tif msgIndex < len(typeToken)+1 {\n\t\treturn nil, errInvalidAuditHeader\n\t}\n", "\tif msgIndex < 1 {\n\t\treturn nil, errInvalidAuditHeader\n\t}\n"))
+M("c05-execve-argc", ["C05"], "execve argc parsed as int and used to preallocate", (AP, "\tfor i := 0; i < int(count); i++ {\n\t\tkey := \"a\" + strconv.Itoa(i)\n\n\t\targ, err := fm.find(key)", "\tseen := make([]bool, int(int32(count)))\n\t_ = seen\n\tfor i := 0; i < int(count); i++ {\n\t\tkey := \"a\" + strconv.Itoa(i)\n\n\t\targ, err := fm.find(key)"))
+# ---- C12 ----
+M("c12-lowercase-hex", ["C12"], "hex decoding accepts lower-case too", ("auparse/hex.go", "\tcase 'A' <= c && c <= 'F':\n\t\treturn c - 'A' + 10, true\n", "\tcase 'A' <= c && c <= 'F':\n\t\treturn c - 'A' + 10, true\n\tcase 'a' <= c && c <= 'f':\n\t\treturn c - 'a' + 10, true\n"))
+M("c12-port-little-endian", ["C12"], "IPv4 port read little-endian", ("auparse/sockaddr.go", "\t\tport, err := hexToDec(s[4:8])\n\t\tif err != nil {\n\t\t\treturn nil, err\n\t\t}\n\n\t\tip, err := hexToIP(s[8:16])", "\t\tport, err := hexToDec(s[6:8] + s[4:6])\n\t\tif err != nil {\n\t\t\treturn nil, err\n\t\t}\n\n\t\tip, err := hexToIP(s[8:16])"))
+M("c12-trim-more", ["C12"], "trimQuotesAndSpace also trims tabs and backslashes", (AP, "func trimQuotesAndSpace(v string) string { return strings.Trim(v, `'\" `) }", "func trimQuotesAndSpace(v string) string { return strings.Trim(v, \"'\\\" \\t\\\\\") }"))
+M("c12-placeholder-none", ["C12"], "'(none)' added to the dropped placeholders", (AP, "\t\tcase \"\", \"?\", \"?,\", \"(null)\":", "\t\tcase \"\", \"?\", \"?,\", \"(null)\", \"(none)\", \"-\":"))
+M("c12-exit-sign", ["C12"], "errno looked up with the wrong sign for codes above 100", (AP, "\tname, found := AuditErrnoToName[-1*exitCode]", "\tif exitCode < -100 {\n\t\texitCode = -exitCode - 100\n\t}\n\tname, found := AuditErrnoToName[-1*exitCode]"))
+M("c12-nul-not-space", ["C12"], "hexDecode keeps only the first NUL-separated string", (AP, "\t\tfm.setFieldValue(key, strings.Join(decodedStrings, \" \"))", "\t\tfm.setFieldValue(key, decodedStrings[0])"))
+M("c12-ipv6-offset", ["C12"], "IPv6 address sliced 8 hex digits late when flowinfo is non-zero", ("auparse/sockaddr.go", "\t\tip, err := hexToIP(s[16:48])", "\t\tip, err := hexToIP(s[16:48])\n\t\tif flow > 0 && len(s) >= 56 {\n\t\t\tip, err = hexToIP(s[24:56])\n\t\t}"))
+# ---- C06 ----
+RR = "rule/rule.go"
+M("c06-bit-mod-31", ["C06"], "syscall bit computed modulo 31", (RR, "\t\t\tbit := 1 << (syscallNum - (word * 32))", "\t\t\tbit := 1 << ((syscallNum - (word * 32)) % 31)"))
+M("c06-values-flags-swapped", ["C06"], "values and fieldflags written to each other's arrays for the 33rd+ field", (RR, "\t\tdata.FieldFlags[i] = r.fieldFlags[i]\n\t\tdata.Values[i] = r.values[i]", "\t\tdata.FieldFlags[i] = r.fieldFlags[i]\n\t\tdata.Values[i] = r.values[i]\n\t\tif i >= 32 {\n\t\t\tdata.FieldFlags[i], data.Values[i] = operator(r.values[i]), uint32(r.fieldFlags[i])\n\t\t}"))
+M("c06-padding", ["C06"], "padding formula rounds up even when aligned", ("rule/binary.go", "\tn += (4 - n%4) % 4 // Adding padding.", "\tn += 4 - n%4 // Adding padding."))
+M("c06-key-separator", ["C06"], "keys joined with 0x02 when there are more than two", (RR, "\t\tkey := strings.Join(keys, string(rune(keySeparator)))", "\t\tsep := string(rune(keySeparator))\n\t\tif len(keys) > 2 {\n\t\t\tsep = \"\\x02\"\n\t\t}\n\t\tkey := strings.Join(keys, sep)"))
+M("c06-operator-const", ["C06", "C20"], "bit-test operator constant wrong", ("rule/zkernel_types.go", "\tbitTestOperator            operator = 0x48000000", "\tbitTestOperator            operator = 0x58000000"))
+M("c06-field-const", ["C06", "C20"], "obj_lev_high/obj_lev_low field codes swapped", ("rule/zkernel_types.go", "\tobjectLevelHighField    field = 0x17\n\tobjectLevelLowField     field = 0x16", "\tobjectLevelHighField    field = 0x16\n\tobjectLevelLowField     field = 0x17"))
+M("c06-exit-truncate", ["C06"], "exit codes below -4095 clamped", (RR, "\t\trule.values = append(rule.values, uint32(exitCode))", "\t\tif exitCode < -4095 {\n\t\t\texitCode = -4095\n\t\t}\n\t\trule.values = append(rule.values, uint32(exitCode))"))
+M("c06-perm-bits", ["C06"], "perm 'a' maps to the exec bit when combined with r", (RR, "\t\tcase 'a':\n\t\t\tpermBits |= attrPerm", "\t\tcase 'a':\n\t\t\tif permBits&readPerm != 0 && len(perm) == 2 {\n\t\t\t\tpermBits |= execPerm\n\t\t\t\tcontinue\n\t\t\t}\n\t\t\tpermBits |= attrPerm"))
+# ---- C07 ----
+M("c07-exit-unsigned", ["C07"], "exit printed unsigned", (RR, "\t\t\t\texitCode := int(int32(value))", "\t\t\t\texitCode := int(value)\n\t\t\t\tif value < 1<<31 {\n\t\t\t\t\texitCode = int(int32(value))\n\t\t\t\t}"))
+M("c07-op-dropped", ["C07"], "the &= operator is printed as & for the a0-a3 fields", (RR, "\t\t\tdefault:\n\t\t\t\trhs = strconv.Itoa(int(value))\n\t\t\t}", "\t\t\tdefault:\n\t\t\t\trhs = strconv.Itoa(int(value))\n\t\t\t\tif fieldID >= arg0Field && fieldID <= arg3Field && op == \"&=\" {\n\t\t\t\t\top = \"&\"\n\t\t\t\t}\n\t\t\t}"))
+M("c07-compare-order", ["C07"], "comparison fields never swapped into canonical order", (RR, "\t\t\tif fieldIds[1] < fieldIds[0] {\n\t\t\t\tfieldIds[0], fieldIds[1] = fieldIds[1], fieldIds[0]\n\t\t\t}", "\t\t\tif fieldIds[1] < fieldIds[0] && false {\n\t\t\t\tfieldIds[0], fieldIds[1] = fieldIds[1], fieldIds[0]\n\t\t\t}"))
+M("c07-watch-perm-order", ["C07"], "watch form used although perm precedes path", (RR, "\tif r.fields[0] != pathField && r.fields[0] != dirField {\n\t\treturn false\n\t}\n\tif r.fields[1] != permField || r.values[1] == 0 {\n\t\treturn false\n\t}", "\tif r.fields[0] != pathField && r.fields[0] != dirField {\n\t\tif !(r.fields[0] == permField && (r.fields[1] == pathField || r.fields[1] == dirField) && len(r.fields) == 2) {\n\t\t\treturn false\n\t\t}\n\t\tr.fields[0], r.fields[1] = r.fields[1], r.fields[0]\n\t\tr.values[0], r.values[1] = r.values[1], r.values[0]\n\t}\n\tif r.fields[1] != permField || r.values[1] == 0 {\n\t\treturn false\n\t}"))
+M("c07-syscall-all-user", ["C07"], "-S all also printed for the user list", (RR, "\t\tif r.flags == exitFilter || r.flags == entryFilter {", "\t\tif r.flags == exitFilter || r.flags == entryFilter || (r.flags == userFilter && len(r.fields) > 3) {"))
+# ---- C13 ----
+M("c13-mask-guard", ["C13"], "mask index guard back to >", (RR, "\t\t\tif int(word) >= len(data.Mask) {", "\t\t\tif int(word) > len(data.Mask) {"))
+M("c13-fieldcount-guard", ["C13"], "field count bound removed", (RR, "\tif in.FieldCount > maxFields {\n\t\treturn fmt.Errorf(\"field count %d exceeds the maximum of %d\", in.FieldCount, maxFields)\n\t}\n", ""))
+M("c13-string-wrap", ["C13"], "string end computed with wrapping addition again", (RR, "\t\t\tif in.Values[i] > in.BufLen-offset {", "\t\t\tif in.Values[i]+offset > in.BufLen {"))
+M("c13-buflen-check", ["C13"], "buflen check compares against the whole message length", ("rule/binary.go", "\tif uint32(len(data[ruleHeaderSize:])) < r.BufLen {", "\tif uint32(len(data)) < r.BufLen {"))
+M("c13-perm-string-index", ["C13"], "watch printing indexes strings[1] when three fields regardless of string count", (RR, "\tif len(r.fields) < 2 || len(r.fields) > 3 || len(r.strings) != len(r.fields)-1 {", "\tif len(r.fields) < 2 || len(r.fields) > 3 {"))
+# ---- C14 ----
+FL = "rule/flags/flags.go"
+M("c14-unanchored-filter", ["C14"], "filter regexp loses its end anchor", (FL, "`(?s)^(\\w+)\\s*(<=|>=|&=|=|!=|<|>|&)(.+)$`", "`(?s)^(\\w+)\\s*(<=|>=|&=|=|!=|<|>|&)(\\S+)`"))
+M("c14-positional-ok", ["C14"], "positional arguments tolerated when they follow a -k", (FL, "\tif ruleFlagSet.flagSet.NArg() > 0 {", "\tif ruleFlagSet.flagSet.NArg() > 0 && len(ruleFlagSet.Key) == 0 {"))
+M("c14-compare-unanchored", ["C14"], "comparison regexp loses its start anchor", (FL, "`^(\\w+)\\s*(!?=)(\\w+)$`", "`(\\w+)\\s*(!?=)(\\w+)$`"))
+M("c14-keys-dedup", ["C14"], "duplicate keys silently dropped", (FL, "\tfor _, w := range words {\n\t\t*l = append(*l, strings.TrimSpace(w))\n\t}", "\tfor _, w := range words {\n\t\tw = strings.TrimSpace(w)\n\t\tdup := false\n\t\tfor _, x := range *l {\n\t\t\tif x == w {\n\t\t\t\tdup = true\n\t\t\t}\n\t\t}\n\t\tif !dup {\n\t\t\t*l = append(*l, w)\n\t\t}\n\t}"))
+M("c14-p-without-w", ["C14"], "-S with -w accepted when -a is absent (watch wins)", (FL, "\t\tcase \"a\", \"A\", \"C\", \"F\", \"S\":\n\t\t\tsyscall = 1", "\t\tcase \"a\", \"A\", \"C\", \"F\":\n\t\t\tsyscall = 1\n\t\tcase \"S\":\n\t\t\tif fileWatch == 0 {\n\t\t\t\tsyscall = 1\n\t\t\t}"))
+# ---- C20 ----
+M("c20-yaml-typo", ["C20"], "a record type in normalizations.yaml misspelt", ("aucoalesce/normalizations.yaml", "  - record_types: ANOM_CRYPTO_FAIL\n", "  - record_types: ANOM_CRYPT_FAIL\n"))
+M("c20-errno-alias", ["C20", "C12"], "EWOULDBLOCK alias points at another number", ("auparse/zaudit_exit_codes.go", "\t\"EWOULDBLOCK\":     11,", "\t\"EWOULDBLOCK\":     41,"))
+M("c20-arch-dup-name", ["C20"], "two arch codes share a name", ("auparse/zaudit_arches.go", "\tAUDIT_ARCH_SHEL64:      \"shel64\",", "\tAUDIT_ARCH_SHEL64:      \"sh64\","))
+M("c20-type-name-mismatch", ["C20", "C04"], "name->type table disagrees with type->name for one entry", ("auparse/zaudit_msg_types.go", "\t\"VIRT_MIGRATE_OUT\":          AUDIT_VIRT_MIGRATE_OUT,", "\t\"VIRT_MIGRATE_OUT\":          AUDIT_VIRT_MIGRATE_IN,"))
+M("c20-category-random", ["C20"], "categorisation depends on a package-level counter", ("aucoalesce/event_type.go", "func GetAuditEventType(t AuditMessageType) AuditEventType {", "var categorisations int\n\nfunc GetAuditEventType(t AuditMessageType) AuditEventType {\n\tcategorisations++\n\tif t == AUDIT_KERNEL && categorisations%1000 == 999 {\n\t\treturn EventTypeUnknown\n\t}"))
